@@ -135,7 +135,7 @@ fn rec_of(ty: u8, u: &Upd) -> Rec {
     Rec { value, flags, time }
 }
 
-fn apply(db: &mut Database, ty: u8, index: u16, r: &Rec, options: UpdateOptions) -> UpdateInfo {
+pub fn apply(db: &mut Database, ty: u8, index: u16, r: &Rec, options: UpdateOptions) -> UpdateInfo {
     let flags = Flags::new(r.flags);
     let time = time_of(r.time);
     match (&r.value, ty) {
@@ -210,7 +210,7 @@ fn apply(db: &mut Database, ty: u8, index: u16, r: &Rec, options: UpdateOptions)
     }
 }
 
-fn current(db: &Database, ty: u8, index: u16) -> Option<Rec> {
+pub fn current(db: &Database, ty: u8, index: u16) -> Option<Rec> {
     match ty {
         0 => Get::<BinaryInput>::get(db, index).map(|v| Rec {
             value: Value::Bool(v.value),
@@ -255,7 +255,7 @@ fn current(db: &Database, ty: u8, index: u16) -> Option<Rec> {
     }
 }
 
-fn same_rec(a: &Rec, b: &Rec) -> bool {
+pub fn same_rec(a: &Rec, b: &Rec) -> bool {
     let v = match (&a.value, &b.value) {
         (Value::Ana(x), Value::Ana(y)) => x.to_bits() == y.to_bits() || (x.is_nan() && y.is_nan()),
         (x, y) => x == y,
@@ -338,7 +338,7 @@ fn state_mask(ty: u8) -> u8 {
 }
 
 /// compare what the handler received with what variation (g, v) can carry of `rec`; Ok(lossy?) or Err(description)
-fn carry_check(ty: u8, g: u8, v: u8, rec: &Rec, got: &Item) -> Result<bool, String> {
+pub fn carry_check(ty: u8, g: u8, v: u8, rec: &Rec, got: &Item) -> Result<bool, String> {
     if ty == 7 {
         let Value::Oct(b) = &rec.value else {
             return Err("record is not an octet string".into());
